@@ -57,6 +57,10 @@ def affixes(syms, maxlen):
     return out
 
 
+class Buf(bytes):
+    """a raw input that is a SUBCLASS of bytes (like bisturi.util.SeekableFile): the library accepts it wherever it accepts bytes"""
+
+
 def observe(dc, raw, start):
     """('ok', values, end) | ('err', shifted stack) | ('exc', type)"""
     u = ea.impl_unpack(dc.K, raw, start)
@@ -119,6 +123,8 @@ def check_one(dc, st, raw, r, maxaff):
                 x = u + region + v
                 got = observe(dc, x, len(u))
                 want = ('ok', base[1], len(u) + e)
+                if got == want and not v and u == bytes(syms[:1]):
+                    got = observe(dc, Buf(x), len(u))       # the same bytes as an instance of a bytes subclass (one prefix per input)
                 if got != want:
                     kind = 'prefix' if (u and not v) else ('suffix' if (v and not u) else ('both' if u else 'cut-tail'))
                     st.violate('unpack depends on %s bytes' % kind,
@@ -135,6 +141,8 @@ def check_one(dc, st, raw, r, maxaff):
             st.inc('transitions')
             got = observe(dc, u + raw, len(u))
             want = ('err', [(o + len(u), n, c) for o, n, c in base[1]])
+            if got == want and u == bytes(syms[:1]):
+                got = observe(dc, Buf(u + raw), len(u))     # the same bytes as an instance of a bytes subclass (one prefix per input)
             if got != want:
                 st.violate('error offsets do not shift with the start offset',
                            '%s.unpack(%r, %d) -> %r but %s.unpack(%r) -> %r | %s' % (dc.P['name'], u + raw, len(u), got, dc.P['name'], raw, base, srcline),
